@@ -157,6 +157,15 @@ SPECIAL = [
                                {"type": "record", "name": "Pt", "namespace": "", "fields": [{"name": "x", "type": "int"}]},
                                {"type": "fixed", "name": "Fx", "namespace": "", "size": 1}, {"type": "enum", "name": "Colour", "symbols": ["BLUE"]}]},
         {"name": "v", "type": ["null", "Colour", "string"]}]}),
+    ("deep-map-values", {"type": "map", "values": {"type": "record", "name": "Person", "fields": [
+        {"name": "name", "type": "string"},
+        {"name": "contact", "type": {"type": "record", "name": "Contact", "fields": [{"name": "email", "type": "string"}, {"name": "phone", "type": ["null", "string", {"type": "array", "items": "int"}]}]}}]}}),
+    ("deep-array-items", {"type": "array", "items": {"type": "record", "name": "Lvl1", "fields": [{"name": "l2", "type": {"type": "record", "name": "Lvl2", "fields": [
+        {"name": "l3", "type": {"type": "record", "name": "Lvl3", "fields": [{"name": "u", "type": ["null", {"type": "map", "values": ["null", "int"]}]}]}}]}}]}}),
+    ("empty-key-containers", {"type": "record", "name": "EK", "fields": [
+        {"name": "mr", "type": {"type": "map", "values": {"type": "record", "name": "XY", "fields": [{"name": "x", "type": "int"}, {"name": "y", "type": "int", "default": 0}]}}},
+        {"name": "ma", "type": {"type": "map", "values": {"type": "array", "items": "int"}}}, {"name": "mm", "type": {"type": "map", "values": {"type": "map", "values": "string"}}},
+        {"name": "mu", "type": {"type": "map", "values": ["null", "XY"]}}]}),
     ("namespaced-union", {"type": "record", "name": "N", "namespace": "ns.x", "fields": [{"name": "u", "type": ["null", {"type": "enum", "name": "En", "symbols": ["A"]}, {"type": "fixed", "name": "other.Fx", "size": 1},
                                                                                                         {"type": "record", "name": "Rr", "fields": [{"name": "z", "type": "int"}]}, {"type": "array", "items": "int"}, {"type": "map", "values": "int"}, "string", "bytes", "double"]}]}),
 ]
@@ -186,6 +195,14 @@ def special_data(label, node, defs):
         return out
     if label == "map-keys":
         return [{"name": "n", "m": m, "after": 7} for m in ({}, {"name": 1}, {"after": 2, "m": 3}, {"": 4}, {"": 5, "x": 6}, {"é\"\\\n": 8}, {"k": 9, "name": 10, "after": 11})]
+    if label == "deep-map-values":
+        return [{"a": {"name": "n", "contact": {"email": "e", "phone": "555"}}}, {"a": {"name": "n", "contact": {"email": "e", "phone": None}}, "b": {"name": "m", "contact": {"email": "f", "phone": [1, 2]}}},
+                {"x": {"name": "", "contact": {"email": "", "phone": "1"}}, "y": {"name": "q", "contact": {"email": "r", "phone": "2"}}, "z": {"name": "s", "contact": {"email": "t", "phone": None}}}, {}]
+    if label == "deep-array-items":
+        return [[{"l2": {"l3": {"u": {"k": 1, "j": None}}}}, {"l2": {"l3": {"u": None}}}], [{"l2": {"l3": {"u": {}}}}], []]
+    if label == "empty-key-containers":
+        return [{"mr": {"": {"x": 3, "y": 4}}, "ma": {"": [1, 2]}, "mm": {"": {"": "v", "k": "w"}}, "mu": {"": {"x": 1, "y": 2}, "n": None}},
+                {"mr": {"": {"x": 3, "y": 4}, "b": {"x": 5, "y": 6}}, "ma": {"": []}, "mm": {"": {}}, "mu": {"": None}}]
     if label == "nested-defaults":
         return [{"k": 1, "aa": [[9]], "ma": {"z": []}, "ra": {"xs": [], "m": {}}, "am": []}]
     if label == "null-namespace-in-union":
